@@ -223,13 +223,32 @@ OkRes  == Res("ok", <<>>, 0, <<>>)
 InitEv == [op |-> "init", res |-> OkRes]
 
 \* clause numbering used by the verdict registers
-BadClause ==
-  IF ~ReAddIsNoop THEN 1 ELSE IF ~AddManyReportsExactlyNew THEN 2 ELSE IF ~NewRowAsGiven THEN 3
-  ELSE IF ~OnlyRemoveDeletes THEN 4 ELSE IF ~RemoveExact THEN 5 ELSE IF ~OnlyMutatorsMutate THEN 6
-  ELSE IF ~StatusMachine THEN 7 ELSE IF ~TryMonotone THEN 8 ELSE IF ~DepthStable THEN 9
-  ELSE IF ~CheckOutNotFoundIff THEN 10 ELSE IF ~CheckOutMarks THEN 11
-  ELSE IF ~CheckInStatusTry THEN 12 ELSE IF ~CheckInResult THEN 13 ELSE IF ~CheckInOthersSame THEN 14
-  ELSE IF ~UpdateExact THEN 15 ELSE IF ~ReleaseExact THEN 16 ELSE IF ~ReopenIdentity THEN 17
-  ELSE IF ~ReadAgree THEN 18 ELSE IF ~NoCrash THEN 19 ELSE IF ~FailureAtomic THEN 20
-  ELSE IF ~VisitSound THEN 21 ELSE IF ~VisitComplete THEN 22 ELSE IF ~ConvertSound THEN 23 ELSE 0
+ClauseBad(c) ==
+  CASE c = 1 -> IF ReAddIsNoop THEN 0 ELSE c
+    [] c = 2 -> IF AddManyReportsExactlyNew THEN 0 ELSE c
+    [] c = 3 -> IF NewRowAsGiven THEN 0 ELSE c
+    [] c = 4 -> IF OnlyRemoveDeletes THEN 0 ELSE c
+    [] c = 5 -> IF RemoveExact THEN 0 ELSE c
+    [] c = 6 -> IF OnlyMutatorsMutate THEN 0 ELSE c
+    [] c = 7 -> IF StatusMachine THEN 0 ELSE c
+    [] c = 8 -> IF TryMonotone THEN 0 ELSE c
+    [] c = 9 -> IF DepthStable THEN 0 ELSE c
+    [] c = 10 -> IF CheckOutNotFoundIff THEN 0 ELSE c
+    [] c = 11 -> IF CheckOutMarks THEN 0 ELSE c
+    [] c = 12 -> IF CheckInStatusTry THEN 0 ELSE c
+    [] c = 13 -> IF CheckInResult THEN 0 ELSE c
+    [] c = 14 -> IF CheckInOthersSame THEN 0 ELSE c
+    [] c = 15 -> IF UpdateExact THEN 0 ELSE c
+    [] c = 16 -> IF ReleaseExact THEN 0 ELSE c
+    [] c = 17 -> IF ReopenIdentity THEN 0 ELSE c
+    [] c = 18 -> IF ReadAgree THEN 0 ELSE c
+    [] c = 19 -> IF NoCrash THEN 0 ELSE c
+    [] c = 20 -> IF FailureAtomic THEN 0 ELSE c
+    [] c = 21 -> IF VisitSound THEN 0 ELSE c
+    [] c = 22 -> IF VisitComplete THEN 0 ELSE c
+    [] c = 23 -> IF ConvertSound THEN 0 ELSE c
+    [] OTHER -> 0
+
+BadClause == IF \E c \in 1..23 : ClauseBad(c) # 0 THEN CHOOSE c \in 1..23 : ClauseBad(c) # 0 /\ \A b \in 1..(c - 1) : ClauseBad(b) = 0
+             ELSE 0
 =============================================================================
